@@ -295,10 +295,90 @@ def run_point(job):
     return st
 
 
+REPLACE_POINTS = [
+    # (name, initial arguments, line lengths, stack): every *line* is within the per-argument limit; what xargs builds from it may not be
+    ("{}{} with a 100000-byte line (argument of 200000 bytes after substitution)", ["{}{}"], [100000], 8 * MIB),
+    ("x{} with a 131071-byte line (one byte over after substitution)", ["x{}"], [131071], 8 * MIB),
+    ("30 x {} with a 100000-byte line (3 MB after substitution, every argument fits alone)", ["{}"] * 30, [100000], 8 * MIB),
+    ("{} with lines of 100000, 10 and 131000 bytes (all fit)", ["{}"], [100000, 10, 131000], 8 * MIB),
+    ("a{}b{}c: second line of 70000 bytes does not fit after substitution", ["a{}b{}c"], [10, 70000, 5], 8 * MIB),
+    ("{}{} with a 60000-byte line (fits)", ["{}{}"], [60000], 8 * MIB),
+    ("{} {} {} with a 50000-byte line under a 512KiB stack (150 KB > 128 KiB budget)", ["{}", "{}", "{}"], [50000], 512 * KIB),
+    ("pre-{}-post x 5 with 20000-byte lines under a 512KiB stack (100 KB, fits)", ["pre-{}-post"] * 5, [20000, 20000], 512 * KIB),
+]
+
+
+def replace_point(job):
+    """-I: the command line is built by substitution, so its size is not the size of what was read. Whatever xargs hands to exec must
+    still be accepted; what cannot be passed is reported with exit status 1 after the lines before it have been run."""
+    (name, initial, lens, stack), seed = job
+    st = Stats()
+    wd = common.mkscratch("C06r")
+    try:
+        lines = [(b"%d:" % i) + b"L" * (n - len(b"%d:" % i)) for i, n in enumerate(lens)]
+        data = b"".join(l + b"\n" for l in lines)
+        log = os.path.join(wd, "rec.log")
+        env = common.clean_env({"VERIF_REC_LOG": log, "VERIF_REC_MODE": "compact"})
+        slog = os.path.join(wd, "strace.log")
+
+        def pre():
+            soft, hard = resource.getrlimit(resource.RLIMIT_STACK)
+            resource.setrlimit(resource.RLIMIT_STACK, (stack, hard))
+        argv = ["strace", "-f", "-qq", "-o", slog, "-e", "trace=execve", "-s", "16", common.XARGS, "-I", "{}", common.REC] + initial
+        rc, out, err, to = common.run_cmd(argv, input=data, env=env, cwd=wd, timeout=300, preexec_fn=pre)
+        st.inc("evaluations")
+        st.inc("replace_mode_points")
+        st.add("distinct", name)
+        if to:
+            st.notes.append("watchdog fired on %s (inconclusive for this point)" % name)
+            return st
+        with open(slog, "rb") as f:
+            sdata = f.read()
+        e2big = [l for l in sdata.split(b"\n") if E2BIG_RE.search(l)]
+        inv = xref.read_reclog(log, compact=True)
+        klimit = max(min(6 * MIB, stack // 4), 128 * KIB)
+        fixed = sum(len(k) + len(v) + 2 + 8 for k, v in env.items()) + len(common.REC) + 1 + 24
+        first_over = None
+        gray = False
+        for i, l in enumerate(lines):
+            built = [a.encode().replace(b"{}", l) for a in initial]
+            total = sum(len(b) + 1 + 8 for b in built) + fixed
+            if any(len(b) + 1 > MAX_ARG_STRLEN for b in built) or total > klimit:
+                first_over = i
+                break
+            if total > klimit - 8192:
+                gray = True
+        problems = []
+        if e2big:
+            problems.append("execve rejected with E2BIG %d times: %r" % (len(e2big), e2big[0][:160]))
+        if rc == 126 or b"too long" in err:
+            problems.append("xargs reported that the command could not be run (exit %r): %r" % (rc, err[-160:]))
+        if gray:
+            st.inc("points_with_argument_in_gray_zone(outcome not judged)")
+        elif first_over is None:
+            st.inc("replace_mode_points_that_fit")
+            if rc != 0 or len(inv) != len(lines):
+                problems.append("exit %r, %d invocations; expected 0 and %d" % (rc, len(inv), len(lines)))
+        else:
+            st.inc("replace_mode_points_too_large_after_substitution")
+            if rc != 1 or not err.strip():
+                problems.append("exit status %r (stderr %r) for a command line that cannot be passed after substitution, expected 1 and a diagnostic"
+                                % (rc, err[-120:]))
+            if len(inv) != first_over:
+                problems.append("%d invocations, expected the %d lines before the one that does not fit" % (len(inv), first_over))
+        if problems:
+            st.violate("os-limit", None, {"point": "-I {}: " + name, "exit": rc, "stderr": err[-300:], "problems": problems, "invocations": len(inv)},
+                       {"replace_point": name})
+    finally:
+        common.force_rmtree(wd)
+    return st
+
+
 def run(ctx):
     ctx.rule = ("grid of argument count (1..4e5 quick, ..1e6 thorough) x length distribution (1 byte, 2, 10, log-uniform 1..4096, "
                 "near the 131071-byte per-argument limit, one over-long argument) x environment size (1KB..1MB) x RLIMIT_STACK "
-                "(512KiB..64MiB, unlimited) x {none, -n, -s}; distinct = grid point")
+                "(512KiB..64MiB, unlimited) x {none, -n, -s, -L with several words per line}; -I points whose command line grows by "
+                "substitution (fits / one argument too large / total too large); distinct = grid point")
     ctx.assumptions = ["kernel %s execve accounting and glibc sysconf(_SC_ARG_MAX)" % os.uname().release,
                        "per-argument limit MAX_ARG_STRLEN = 32 pages = %d incl. NUL" % MAX_ARG_STRLEN,
                        "strace -f as syscall recorder"]
@@ -312,5 +392,9 @@ def run(ctx):
         import json
         pts = [json.load(open(ctx.replay))["replay"]["point"]]
     ctx.pmap(run_point, [(p, ctx.seed) for p in pts], nproc=8)
+    if not ctx.replay:
+        ctx.pmap(replace_point, [(rp_, ctx.seed) for rp_ in REPLACE_POINTS], nproc=8)
+        ctx.require("replace_mode_points_that_fit", 2)
+        ctx.require("replace_mode_points_too_large_after_substitution", 2)
     for key in ("points_with_several_batches", "points_with_oversize_argument", "points_all_args_within_limit"):
         ctx.require(key, 2)
